@@ -205,8 +205,8 @@ func (s *verifC12Suite) TestVerifC12(c *C) {
 		vFinish(r, "replay of one stored path")
 	}
 
-	depth := r.Pick(5, 6)
-	kdepth := r.Pick(4, 5)
+	depth := r.Pick(5, 7)
+	kdepth := r.Pick(4, 6)
 	if v := os.Getenv("VERIF_C12_DEPTH"); v != "" {
 		fmt.Sscanf(v, "%d,%d", &depth, &kdepth)
 	}
